@@ -82,6 +82,10 @@ int main() {
         // whatever the object held, so the second result must equal the first (the model has no such history: a difference shows as a disagreement)
         std::string first = show_msg(M), o2;
         if (call_fn(fid_of_name(t[1]), a, M, o2) && show_msg(M) != first) res += " | refilled " + show_msg(M);
+        // ... and an object that starts with a length but no PGN (the constructor's _DataLen argument, or bytes added before the PGN was given):
+        // the setter still starts from an empty message (seed C05-23)
+        tN2kMsg P(15, 6, 0, 8); memset(P.Data, 0x33, 8); std::string o3;
+        if (call_fn(fid_of_name(t[1]), a, P, o3) && show_msg(P) != first) res += " | preset-length " + show_msg(P);
       } else res = "badcase";
     } else if (t[0] == "B" && t.size() == 4) {
       // N2kSetStatusBinaryOnStatus / N2kGetStatusOnBinaryStatus (bank status of PGN 127501): B <bank hex> <status 0..3> <item index>
